@@ -277,6 +277,25 @@ def oracle(rep, o, seed):
     return stats, flagged
 
 
+def desc_term(dump, hbname):
+    """Gallina term (type `desc` of TranslateModel.v) of a descriptor dump."""
+    tok = dump.split()
+    k = tok[0]
+    if k in ("pkh", "wpkh", "sh-wpkh"):
+        return "(%s %s)" % ({"pkh": "DPkh", "wpkh": "DWpkh", "sh-wpkh": "DShWpkh"}[k], tok[1])
+    if k == "tr":
+        n, pos, leaves = int(tok[2]), 3, []
+        for _ in range(n):
+            depth = tok[pos + 1]
+            t, pos = parse_ms(tok, pos + 2, [], hbname)
+            leaves.append("(%s, %s)" % (depth, t))
+        return "(DTr %s [%s])" % (tok[1], "; ".join(leaves))
+    t, pos = parse_ms(tok, 1, [], hbname)
+    if pos != len(tok):
+        raise DumpError("trailing tokens in %r" % dump)
+    return "(%s %s)" % ({"bare": "DBare", "wsh": "DWsh", "sh-wsh": "DShWsh", "sh": "DSh"}[k], t)
+
+
 EQC = {"0": 0, "1": 1, "P": 2}
 CMPC = {"L": 0, "E": 1, "G": 2, "P": 3}
 
@@ -345,8 +364,23 @@ def gen_coq(o):
         body.append("Definition streams_%s : list (N * list rawword) := %s." % (dom, " ++ ".join(cn)))
         body.append("Definition dom_%s : dom := mkDom ranks_%s vals_%s pairs_%s streams_%s." % (dom, dom, dom, dom, dom))
         names.append("dom_%s" % dom)
+    # descriptors: ==, cmp against desc_eq / desc_cmp (full keys ranked as in segv0, x-only keys as in tap)
+    dv = o["V"].get("desc", {})
+    dterms = [desc_term(dv[i][1], hbname) for i in range(len(dv))]
+    cn = []
+    for c, ch in enumerate(chunks(dterms, 200)):
+        body.append("Definition dvals_%d : list desc := [%s]." % (c, ";\n  ".join(ch)))
+        cn.append("dvals_%d" % c)
+    body.append("Definition dvals : list desc := %s." % " ++ ".join(cn))
+    pl = ["(%d, %d, (%d, %d))" % (i, j, EQC[e], CMPC[c]) for (i, j), (e, c, h, r) in sorted(o["P"].get("desc", {}).items())]
+    cn = []
+    for c, ch in enumerate(chunks(pl, 1500)):
+        body.append("Definition dpairs_%d : list dpcase := [%s]." % (c, "; ".join(ch)))
+        cn.append("dpairs_%d" % c)
+    body.append("Definition dpairs : list dpcase := %s." % " ++ ".join(cn))
+    body.append("Definition ddom_eq : deqdom := mkDEqDom ranks_segv0 ranks_tap dvals dpairs.")
     head = ["(* generated by tools/props/c19.py from the output of `verif-harness eqord`; do not edit *)",
-            "From Verif Require Import EqOrdRun.", "Local Open Scope N_scope."]
+            "From Verif Require Import EqOrdRun EqOrdDescRun.", "Local Open Scope N_scope."]
     for h, nm in sorted(used.items(), key=lambda x: x[1]):
         bs = [str(int(h[i:i + 2], 16)) for i in range(0, len(h), 2)]
         head.append("Definition %s : bytes := [%s]." % (nm, "; ".join(bs)))
@@ -391,8 +425,17 @@ def coq_tie(rep, o, flagged, seed):
         rep.violation("tie:diag", "cases_match_model fails and the diagnosis did not run: " + (c3.stderr or c2.stderr)[-800:],
                       {"property": PID, "broken_tie": "Tables/EqOrdCasesCheck.v"}, False)
         return False, variant, 0
-    pair_diag, stream_diag, spec_diag = val
-    n = 0
+    pair_diag, stream_diag, spec_diag, desc_diag = val
+    n_desc = len(desc_diag)
+    for (i, j, impl, coded, fixed) in desc_diag:
+        if ("desc", i, j) in flagged:
+            continue
+        rep.violation("tie:desc", "implementation and model disagree on ==/cmp of the descriptors %s | %s: impl %s model %s" %
+                      (o["V"]["desc"][i][1], o["V"]["desc"][j][1], list(impl), list(coded)),
+                      {"property": PID, "seed": seed, "domain": "desc", "broken_tie": "cases_match_model (descriptors)",
+                       "values": {str(i): o["V"]["desc"][i][1], str(j): o["V"]["desc"][j][1]},
+                       "implementation": list(impl), "model_as_coded": list(coded), "model_repaired": list(fixed)}, False)
+    n = n_desc
     comp = ["==", "cmp", "hash"]
     cmpn = ["Less", "Equal", "Greater", "panic"]
     for dom, rows in zip(MS_DOMS, pair_diag):
@@ -479,7 +522,7 @@ def run(rep, tier, seed, replay):
         "evaluations": stats["pairs"] + stats["triples"] + stats["sets"] + stats["clones"],
         "distinct_nontrivial": sum(len(v) for v in o["V"].values()),
         "pairs": stats["pairs"], "triples": stats["triples"], "set_groups": stats["sets"], "clones": stats["clones"],
-        "pairs_compared_in_coq": sum(len(o["P"].get(d, {})) for d in MS_DOMS),
+        "pairs_compared_in_coq": sum(len(o["P"].get(d, {})) for d in MS_DOMS + ["desc"]),
         "hash_streams_compared_in_coq": sum(len(o["H"].get(d, {})) for d in MS_DOMS),
         "differing_cases": ndiff,
         "rule": "generated miniscripts (type-directed, 4 contexts, all base types) + every single-step neighbour kind "
